@@ -413,6 +413,13 @@ if z3 is not None:
     kh_file = z3.Function('known_hosts_lines', SSTR, BoolS, SLOG)    # index operations for a list of lines
     wsplit = z3.Function('wsplit_s', StrS, IntS, SSTR)               # str.split(None, k) (engine symbol)
     splitlines = z3.Function('splitlines_s', StrS, SSTR)             # str.splitlines() (engine symbol)
+
+    def nl_lines(text):
+        """the lines of a trust file: OpenSSH reads it with getline(), the ONLY line terminator is '\\n' (a form
+        feed, vertical tab, FS/GS/RS, NEL or U+2028/9 inside a key comment does not start a new entry)"""
+        return split_s(text, z3.StringVal('\n'))
+
+    lower_s = z3.Function('lower_s', StrS, StrS)                     # str.lower() (engine symbol)
     pk_ok = z3.Function('import_public_key_ok', StrS, BoolS)         # import_public_key(text) does not raise
     pk_of = z3.Function('import_public_key', StrS, opaque_sort('Key'))
     cert_ok = z3.Function('import_certificate_ok', StrS, BoolS)
@@ -895,6 +902,62 @@ def _check_option_handlers(tier, seed):
     return n, bad[:5]
 
 
+def _check_line_terminators(tier, seed):
+    """only a newline separates entries: a key comment containing VT, FF, FS, GS, RS, NEL, LS or PS must not start a
+    new authorized_keys / known_hosts entry (ssh-keygen -l sees ONE key in such a file)"""
+    import asyncssh
+    keys = _gen_keys(2)
+    (ka, ta), (ke, te) = keys
+    bad, n = [], 0
+    for sep in ('\x0b', '\x0c', '\x1c', '\x1d', '\x1e', '\x85', '\u2028', '\u2029'):
+        n += 2
+        text = '%s alice%s%s\n' % (' '.join(ta), sep, ' '.join(te))
+        try:
+            got = asyncssh.import_authorized_keys(text).validate(ke.convert_to_public(), 'h', '10.0.0.1')
+        except Exception as e:
+            got = None
+        if got is not None:
+            bad.append({'authorized_keys': text, 'asyncssh': 'the key inside the comment is authorized',
+                        'spec': 'one entry (key A with a comment)'})
+        text = 'good.example.com %s c%sevil.example.com %s\n' % (' '.join(ta), sep, ' '.join(te))
+        try:
+            r = asyncssh.import_known_hosts(text).match('evil.example.com', '', None)
+            got = len(r[0])
+        except Exception as e:
+            got = 0
+        if got:
+            bad.append({'known_hosts': text, 'asyncssh': 'evil.example.com trusts %d key(s)' % got,
+                        'spec': 'one entry for good.example.com'})
+    return n, bad[:5]
+
+
+def _check_option_keyword_case(tier, seed):
+    """sshd(8): option keywords are case-insensitive - From= / COMMAND= / No-Pty restrict exactly like their
+    lower-case spelling"""
+    import asyncssh
+    keys = _gen_keys(1)
+    kt = ' '.join(keys[0][1])
+    pub = keys[0][0].convert_to_public()
+    bad, n = [], 0
+    for opts, client, want in (
+            ('From="10.0.0.0/8"', ('evil', '192.168.1.1'), None),
+            ('FROM="10.0.0.0/8"', ('ok', '10.1.1.1'), {'from'}),
+            ('COMMAND="/bin/false"', ('h', '10.0.0.1'), {'command'}),
+            ('No-Pty,NO-AGENT-FORWARDING', ('h', '10.0.0.1'), {'no-pty', 'no-agent-forwarding'}),
+            ('Environment="A=1"', ('h', '10.0.0.1'), {'environment'}),
+            ('PermitOpen="h:22"', ('h', '10.0.0.1'), {'permitopen'})):
+        n += 1
+        try:
+            got = asyncssh.import_authorized_keys(opts + ' ' + kt + '\n').validate(pub, *client)
+            got = None if got is None else set(got)
+        except Exception as e:
+            got = type(e).__name__
+        if got != want:
+            bad.append({'options': opts, 'client': list(client), 'asyncssh option keys': repr(got),
+                        'spec option keys': repr(want)})
+    return n, bad[:5]
+
+
 def native_checks(tier, seed):
     out = []
 
@@ -918,6 +981,8 @@ def native_checks(tier, seed):
     run('C17.bounded#known-hosts-ip-literal-in-list-with-port', _check_known_hosts, tier, seed, True)
     run('C17.bounded#authorized-keys-validate', _check_validate, tier, seed)
     run('C17.bounded#option-handlers', _check_option_handlers, tier, seed)
+    run('C17.bounded#option-keyword-case', _check_option_keyword_case, tier, seed)
+    run('C17.bounded#line-terminators', _check_line_terminators, tier, seed)
     run('C17.bounded#oracle-vs-ssh-keygen', _check_oracle_vs_ssh_keygen, tier, seed)
     run('C17.bounded#oracle-vs-ssh-keygen-options', _check_oracle_options_vs_ssh_keygen, tier, seed)
     return out
